@@ -340,3 +340,75 @@ def check_escapes(ob, rule, oblig, fi, summ, allowed, what_entry, finding_roles=
                                  "%s can leave %s, documented: %s" % (sn, what_entry, ", ".join(sorted(allowed)) or "none"),
                                  site=ev.site.to_json(), path=[str(c.site) for c in chain])
     return n
+
+
+# ------------------------------------------------------------------------------ boolean skeleton of a block
+def _atoms_of(test, out):
+    if isinstance(test, ast.BoolOp):
+        for v in test.values:
+            _atoms_of(v, out)
+    elif isinstance(test, ast.UnaryOp) and isinstance(test.op, ast.Not):
+        _atoms_of(test.operand, out)
+    else:
+        out.setdefault(ast.dump(test), test)
+
+
+def _eval_test(test, asg):
+    if isinstance(test, ast.BoolOp):
+        vals = [_eval_test(v, asg) for v in test.values]
+        return all(vals) if isinstance(test.op, ast.And) else any(vals)
+    if isinstance(test, ast.UnaryOp) and isinstance(test.op, ast.Not):
+        return not _eval_test(test.operand, asg)
+    return asg[ast.dump(test)]
+
+
+def block_atoms(stmts):
+    """The atomic conditions (anything that is not and/or/not) of the if-tests of a block, keyed by ast.dump."""
+    out = {}
+    for s in stmts:
+        for sub in ast.walk(s):
+            if isinstance(sub, ast.If):
+                _atoms_of(sub.test, out)
+    return out
+
+
+def executed_calls(stmts, asg):
+    """Call nodes certainly executed when the block runs once with the atomic conditions valued by `asg` (calls inside
+    nested loops, and anything after a break/continue/return, are not counted)."""
+    out = []
+
+    def run(block):
+        for s in block:
+            if isinstance(s, ast.If):
+                if run(s.body if _eval_test(s.test, asg) else s.orelse):
+                    return True
+            elif isinstance(s, (ast.For, ast.While, ast.FunctionDef, ast.ClassDef)):
+                continue
+            elif isinstance(s, (ast.Break, ast.Continue, ast.Return, ast.Raise)):
+                out.extend(n for n in ast.walk(s) if isinstance(n, ast.Call))
+                return True
+            elif isinstance(s, (ast.With, ast.Try)):
+                if run(s.body):
+                    return True
+            else:
+                out.extend(n for n in ast.walk(s) if isinstance(n, ast.Call))
+        return False
+    run(stmts)
+    return out
+
+
+def assignments(atoms):
+    import itertools
+    keys = sorted(atoms)
+    if len(keys) > 10:
+        return None
+    return [dict(zip(keys, vals)) for vals in itertools.product((False, True), repeat=len(keys))]
+
+
+def innermost_loop(fn_node, node):
+    best = None
+    for lp in ast.walk(fn_node):
+        if isinstance(lp, (ast.For, ast.While)) and any(n is node for n in ast.walk(lp)):
+            if best is None or any(n is lp for n in ast.walk(best)):
+                best = lp
+    return best
